@@ -3,6 +3,7 @@
 //!   lzverif exec <area> <cmdfile> <outdir>       execute the given command lines (corpus, replay)
 //! Output: cases.txt (commands for the model driver), impl.txt (implementation observations),
 //! oracle.txt (verdict of the property's own oracle on the implementation), dist.json.
+mod encutil;
 mod reflib;
 mod util;
 mod areas {
@@ -34,6 +35,15 @@ fn main() {
             let mut dist = Dist::default();
             let cmds = (area.gen)(&mut rng, tier, &mut dist);
             run_cases(area, &cmds, &args[5], &dist);
+        }
+        "list" => {
+            let tier = args[3].as_str();
+            let seed: u64 = args[4].parse().unwrap_or(0);
+            let mut rng = Rng::new(seed ^ fnv(area.name));
+            let mut dist = Dist::default();
+            for c in (area.gen)(&mut rng, tier, &mut dist) {
+                println!("{c}");
+            }
         }
         "exec" => {
             let text = std::fs::read_to_string(&args[3]).unwrap();
